@@ -35,9 +35,28 @@ func Scan(slices [][]byte, sliceSize int, files [][]byte) Result {
 	for i, s := range slices {
 		idx[string(s)] = append(idx[string(s)], i)
 	}
+	// for big slices, an exact pre-filter on the first 8 bytes avoids materialising every window (the comparison that
+	// decides is still the full byte-wise one)
+	const pre = 8
+	var prefix map[[pre]byte]bool
+	if sliceSize > 64 {
+		prefix = map[[pre]byte]bool{}
+		for _, s := range slices {
+			var k [pre]byte
+			copy(k[:], s)
+			prefix[k] = true
+		}
+	}
 	for fi, data := range files {
 		lastEnd := -1
 		for j := 0; j < len(data); j++ {
+			if prefix != nil {
+				var k [pre]byte
+				copy(k[:], data[j:]) // zero-padded at EOF like the window itself
+				if !prefix[k] {
+					continue
+				}
+			}
 			var w []byte
 			if j+sliceSize <= len(data) {
 				w = data[j : j+sliceSize]
